@@ -1,6 +1,7 @@
 package props
 
 import (
+	"encoding/binary"
 	"encoding/hex"
 	"fmt"
 	"sort"
@@ -42,6 +43,14 @@ func genC07(r *rt.Rand, tier string, idx int) *world.Scenario {
 	for i := 0; i < n; i++ {
 		k := keys[rh.Intn(len(keys))]
 		val := fmt.Sprintf("h%d", i)
+		if rh.Chance(0.12) {
+			// a user value that looks like one of the store's own records: 8 bytes of a revision at or below
+			// the compaction revision, with or without a flag byte
+			var rec [9]byte
+			binary.BigEndian.PutUint64(rec[:8], sc.InitRev+uint64(rh.Intn(n+2)))
+			rec[8] = []byte{0x21, 0x01, 0x00, 0xff}[rh.Intn(4)]
+			val = "hex:" + hex.EncodeToString(rec[:8+rh.Intn(2)])
+		}
 		switch {
 		case !live[k]:
 			sc.Prologue = append(sc.Prologue, world.Op{K: "create", Key: k, Val: val})
